@@ -516,7 +516,7 @@ class Interp:
     _BIN = {
         ast.Add: lambda a, b: a + b,
         ast.Sub: lambda a, b: a - b,
-        ast.Mult: lambda a, b: a * b,
+        ast.Mult: lambda a, b: _mul(a, b),
         ast.Div: lambda a, b: a / b,
         ast.FloorDiv: lambda a, b: a // b,
         ast.Mod: lambda a, b: a % b,
@@ -917,6 +917,17 @@ def _b_sorted(xs, **k):
     return sorted(xs, **k)
 
 
+def _mul(a, b):
+    # [table] * n with a symbolic count: a replicated list (consumed by pd.concat)
+    if isinstance(a, list) and isinstance(b, SV):
+        from .models.misc import RepList
+        return RepList(a, b)
+    if isinstance(b, list) and isinstance(a, SV):
+        from .models.misc import RepList
+        return RepList(b, a)
+    return a * b
+
+
 _TYPE_OF_BUILTIN = {"_b_list": list, "_b_int": int, "_b_float": float, "_b_str": str}
 
 BUILTINS = {
@@ -928,5 +939,5 @@ BUILTINS = {
     "ValueError": ValueError, "TypeError": TypeError, "KeyError": KeyError, "IndexError": IndexError,
     "Exception": Exception, "FileNotFoundError": FileNotFoundError, "NotImplementedError": NotImplementedError,
     "RuntimeError": RuntimeError, "repr": repr, "divmod": divmod, "callable": callable, "getattr": getattr,
-    "iter": iter, "next": next, "slice": slice, "object": object, "id": id, "ord": ord, "chr": chr,
+    "iter": iter, "next": next, "slice": slice, "object": object, "id": id, "ord": ord, "chr": chr, "complex": complex,
 }
